@@ -45,7 +45,7 @@ import (
 // case description (also the replay format)
 
 type kase struct {
-	Kind   string `json:"kind"` // honest | flip | torsion | alts | qn | nodegrid | seq | dirty | order | mlen
+	Kind   string `json:"kind"` // honest | flip | torsion | alts | qn | nodegrid | seq | dirty | order | mlen | deform
 	Key    int    `json:"key"`
 	Series string `json:"series"` // ctr | len
 	I      int64  `json:"i"`
@@ -308,7 +308,7 @@ func honest(k int, series string, i int64) (*base, result) {
 		r.fail("C16:panic:"+site, "honest", "panic %v", val)
 	}
 	if b.full {
-		r.out(fmt.Sprintf("honest:accepted:lz%d:qn%d", b.lz, b.qn))
+		r.out(fmt.Sprintf("honest:accepted:lz%d", b.lz))
 	}
 	return b, r
 }
@@ -916,6 +916,9 @@ func run(c *fw.Ctx) {
 	if !runOrder(c, sz, &idx) {
 		stop("time budget: order oracle incomplete")
 	}
+	if !capped && !runDeform(c, sz, &idx) {
+		stop("time budget: length deformations incomplete")
+	}
 	if !capped && !runLengths(c, &idx) {
 		stop("time budget: message-length family incomplete")
 	}
@@ -1010,6 +1013,10 @@ func replay(c *fw.Ctx, raw json.RawMessage) {
 		replaySeq(c, ks)
 		return
 	}
+	if ks.Kind == "deform" {
+		replayDeform(c, ks)
+		return
+	}
 	if ks.Kind == "mlen" {
 		replayLengths(c, ks)
 		return
@@ -1064,7 +1071,9 @@ func main() {
 			"message (preBH.Random), public key and proof plus other deltas / an unrelated previous header presented before the honest triple, the honest triple, then all mutants again with the honest triple in between " +
 			"(every reject and accept verdict history-independent); message-length family: 2 keys x 20 message lengths 0..1000: honest pipeline, every single-bit flip of the message at all byte positions (L<=257; " +
 			"L=1000: first/middle/last 2 bytes and every 64th byte) through ECVRFVerify and VRFVerify, one-byte extensions (00, ff), one-byte truncation and same-prefix-different-tail siblings must be rejected, and proofs/outputs " +
-			"are pairwise distinct over all distinct messages of the family; and dirty-destination decoding of points over all ordered pairs of a pool of valid/invalid encodings. Every case is distinct by construction; non-trivial = an honest proof taken through both paths, a mutant submitted to the verifier, " +
+			"are pairwise distinct over all distinct messages of the family; length deformations of honest proofs (prefix junk J||P with |J| in 1,2,16,32,48 in three patterns plus two qualification-threshold values, " +
+			"suffix junk, both, front/back truncations) for the witnesses and the first A messages of every key: every form accepted by VRFVerify or by verifyBlockVRF as header ProveValue must carry the honest lottery output " +
+			"for every production reader and qn in 1..MaxQN; and dirty-destination decoding of points over all ordered pairs of a pool of valid/invalid encodings. Every case is distinct by construction; non-trivial = an honest proof taken through both paths, a mutant submitted to the verifier, " +
 			"a crafted proof whose challenge is consistent with the guess (i.e. actually submitted), a grid point evaluated (panics on workingMiners>totalStake excluded).",
 		Assumptions: []string{
 			"the repository's own curve/scalar arithmetic is used to build adversarial proofs (only through the group law; small-order table self-checked by repeated addition)",
